@@ -17,7 +17,7 @@ pub fn def() -> PropDef {
 
 fn meta(_ctx: &Ctx) -> EvidenceMeta {
     EvidenceMeta {
-        rule: "(beyond the round trip, the same judgement is applied to three feature-neutral transformations: the GC pass; the only table / memory, when imported, replaced by a module-defined one; a `block (result i32)` inserted through the builder API with InstrSeqType::new) modules generated under every feature profile (MVP, all, random subsets), fixtures, real corpus; per module the candidate feature sets S = {generating set, greedy-minimal set, MVP, full set minus each single proposal, 6 derived subsets}; non-trivial = the input's greedy-minimal set is a strict subset of walrus's full set and the module has a data/element segment, a block with result, a call_indirect or a memory access; distinct by module bytes. Oracle: Validator(S) accepts input => Validator(S) accepts output.".into(),
+        rule: "(beyond the round trip, the same judgement is applied to three feature-neutral transformations: the GC pass; the only table / memory, when imported, replaced by a module-defined one; a `block (result i32)` inserted through the builder API with InstrSeqType::new; an empty active data segment added with ModuleData::add) modules generated under every feature profile (MVP, all, random subsets), fixtures, real corpus; per module the candidate feature sets S = {generating set, greedy-minimal set, MVP, full set minus each single proposal, 6 derived subsets}; non-trivial = the input's greedy-minimal set is a strict subset of walrus's full set and the module has a data/element segment, a block with result, a call_indirect or a memory access; distinct by module bytes. Oracle: Validator(S) accepts input => Validator(S) accepts output.".into(),
         assumptions: vec!["wasmparser's feature gating is the definition of 'needs proposal p'".into()],
         level: "exploration",
         exhaustive: false,
@@ -197,6 +197,36 @@ pub fn check(_ctx: &Ctx, input: &Input) -> CaseResult {
             }
         }
     }
+    // (4) an active data segment added through the API (MVP has active
+    // segments; no data-count section is needed for one)
+    if let Ok(Ok(mut m)) = wal::parse(&p.bytes, &cfg) {
+        let register = out.hash & 2 == 0;
+        let done = guard("edit", || {
+            use walrus::*;
+            let mem = match m.memories.iter().next() {
+                Some(mem) => (mem.id(), mem.memory64),
+                None => return false,
+            };
+            let offset = if mem.1 {
+                ConstExpr::Value(ir::Value::I64(0))
+            } else {
+                ConstExpr::Value(ir::Value::I32(0))
+            };
+            let id = m.data.add(DataKind::Active { memory: mem.0, offset }, vec![]);
+            // registering the segment with its memory is optional bookkeeping
+            // (nothing documents it as required): do it for half of the cases
+            if register {
+                m.memories.get_mut(mem.0).data_segments.insert(id);
+            }
+            true
+        });
+        if let Ok(true) = done {
+            if let Ok(e) = wal::emit(&mut m) {
+                judge(&p.bytes, &e, "after-adding-an-active-data-segment:", &p, &mut out, false)?;
+                out.label("mode:active-data-added");
+            }
+        }
+    }
     Ok(out)
 }
 
@@ -346,7 +376,7 @@ fn judge(a_bytes: &[u8], b: &[u8], tag: &str, p: &Prepared, out: &mut CaseOut, p
 fn run(ctx: &Ctx) {
     let plans = [GenPlan {
         gen: "full-nobig",
-        cases: ctx.tier.pick(20_000, 400_000),
+        cases: ctx.tier.pick(60_000, 600_000),
         min_len: 0,
         max_len: ctx.tier.pick(1200, 3000),
     }];
